@@ -475,7 +475,7 @@ Theorem parser_establishes fx path now c :
   c_tsbd c <> None /\ c_startNr c <> None /\
   (fx_periods fx = true -> match c_pph c with Some n => 1 <= n <= 3600 | None => True end) /\
   (fx_subsdur fx = true -> 0 < c_subsDurMS c) /\
-  (fx_snr fx = true -> match c_startNr c with Some n => n <= maxu32 | None => True end) /\
+  (fx_snr fx = true -> match c_startNr c with Some n => -2147483648 <= n <= maxu32 | None => True end) /\
   0 <= now.
 Proof.
   unfold process_url_cfg.
